@@ -236,6 +236,17 @@ func runEnumCase(c enumCase) *core.Failure {
 	if d := model.Diff(wf, got); d != "" {
 		return core.Failf("%s: column differs from the data: %s\n got %s", what, d, got)
 	}
+	// latent state: the column and frames derived from it (upper-cased, sorted, aggregated, ...) against frames built
+	// with New from what they show (battery.go)
+	if len(data) <= 3 && len(declared) <= 4 && c.Path != "new-agg" {
+		decl := map[string][]string{}
+		if len(declared) > 0 {
+			decl["e"] = declared
+		}
+		if f := latentDeep(q, decl, what); f != nil {
+			return f
+		}
+	}
 	in := wf
 	// the same column with all its rows in reverse order (a full-length index that is not the identity)
 	revIx := make([]int, in.N)
